@@ -299,7 +299,7 @@ func (v *Verifier) Discharge(work string, tmo int, par int, depth int) []*Result
 	texts := make([]string, len(v.obligations))
 	type variant struct {
 		file, label string
-		cvc5ok    bool
+		cvc5ok      bool
 	}
 	variants := make([][]variant, len(v.obligations))
 	abstractable := map[string]bool{}
